@@ -1,4 +1,4 @@
-"""GenMeta.v -- what the readers of the metadata-plane DOCUMENTS demand of them, read off the source (C07).
+"""GenDoc.v -- what the readers of the metadata-plane DOCUMENTS demand of them, read off the source (C07).
 
 A garbage collection deletes what the documents it read do not name, so the question "which damaged documents does the
 reader REFUSE" is part of the collector's logic.  This generator reads the reader code and emits, as terms of
@@ -25,7 +25,7 @@ Python subset (anything else: Unsupported, fail closed -- the model has no vocab
     x = E.get("k");  if x: x = {int(k): .. for k, v in x.items()}        optional map with int()-able keys: SExt "intkey_map"
     names bound to lists built earlier, constants, conditional expressions over the above
 A call of anything else on the document (a helper that substitutes a default for a missing section, say) is outside
-the subset: the generator fails and every theorem stated over GenMeta.v is unproved until the model is re-validated.
+the subset: the generator fails and every theorem stated over GenDoc.v is unproved until the model is re-validated.
 """
 from __future__ import annotations
 
@@ -380,7 +380,7 @@ def _flow(w: Walker, cls: str, kw: str, what: str) -> List[str]:
     return w.flows[(cls, kw)]
 
 
-@generator("GenMeta.v")
+@generator("GenDoc.v")
 def gen_meta(src: str) -> str:
     mm = parse_module(src, "metadata_manager.py")
     fm = parse_module(src, "file_manager.py")
@@ -449,7 +449,7 @@ def gen_meta(src: str) -> str:
     if holder is None:
         raise Unsupported("read_manifest_file: the record holding file_path is not record[key]")
 
-    return f"""(* GENERATED by translator/gen_meta.py from metadata_manager.py / file_manager.py / data_structures.py -- do not edit. *)
+    return f"""(* GENERATED by translator/gen_doc.py from metadata_manager.py / file_manager.py / data_structures.py -- do not edit. *)
 From Coq Require Import ZArith List String.
 Require Import DS.Model.Doc.
 Import ListNotations.
